@@ -54,6 +54,11 @@ def run(ctx):
                        constants={"MaxV": maxv})
     ctx.mc("mc-divalg", "C02", "IntDivAlg.tla", cfg, required_actions=["Pick"])
     ctx.scope.update({"IntDivAlg.MaxV": maxv})
+    # algorithm layer, word level: single/double-word fast paths and the shift helpers, with the 2-by-1 precondition
+    for (w, ml) in ctx.pick([(3, 4)], [(3, 5), (4, 3)]):
+        cfg = fw.write_cfg(ctx.path("MC_DivWordAlg_%d_%d.cfg" % (w, ml)), invariants=["DivWordOK", "RemWordOK", "DivDwordPow2OK"],
+                           constants={"W": w, "MaxLen": ml})
+        ctx.mc("mc-divword-w%d-n%d" % (w, ml), "C02", "DivWordAlg.tla", cfg, required_actions=["Pick", "PickD"])
     # spec -> impl
     # the size classes follow the schoolbook / divide-and-conquer switch of the code (read from the source)
     sc = fw.source_constants()
@@ -77,7 +82,8 @@ def run(ctx):
     return ctx.finish(
         rule="one event = one (dividend, divisor) pair executed in every division form (/, %, div_rem, Euclidean forms, assign "
              "forms, primitive divisors/dividends of every width, ConstDivisor, is_multiple_of); non-trivial = both operands non-zero",
-        explanation="IntDivAlg (sign fix-up macros) model-checked exhaustively for |a|,|b| <= MaxV; Gen_C02 constructs a := q*b + r over "
+        explanation="IntDivAlg (sign fix-up macros) model-checked exhaustively for |a|,|b| <= MaxV; DivWordAlg (single/double-word fast paths, "
+                    "shift helpers, 2-by-1 division precondition) for all dividends of up to 4 three-bit words; Gen_C02 constructs a := q*b + r over "
                     "divisor/quotient size classes; Trace_C02 recomputes (q, r) with an independent Knuth-D on byte limbs and re-asserts the identity.",
         required_cover=["zero-divisor", "signs:++", "signs:+-", "signs:-+", "signs:--", "divisor:1w", "divisor:2w", "divisor:3-32w",
                         "divisor:>32w", "divide-and-conquer", "dword-power-of-two", "exact", "quotient-zero", "primitive-forms",
